@@ -592,6 +592,10 @@ pub fn main(_args: &[String]) -> i32 {
 /// `recover` mode: open directory images left by a simulated crash and read every key.
 /// stdin:  `R <dir> mfs=<n> <key>,<key>,...`
 /// stdout: `open:ok <key>=<result>,...` | `open:err:<text>` | `open:panic`
+fn return_line(out: &mut dyn Write, s: String) {
+    writeln!(out, "{}", s).unwrap();
+}
+
 pub fn recover_main(_args: &[String]) -> i32 {
     quiet_panics();
     let stdin = std::io::stdin();
@@ -637,7 +641,73 @@ pub fn recover_main(_args: &[String]) -> i32 {
                     Ok(Err(e)) => format!("err:{}", e).replace(' ', "_"),
                     Err(_) => "panic".to_string(),
                 };
-                format!("open:ok {} write={}", items.join(","), w)
+                // second life: acknowledged operations on the recovered store (a new key, an overwrite of the
+                // first key, a delete of the second), then a third life that must read all of them
+                let mut life3 = String::from("skipped");
+                if !dead && w == "ok" {
+                    let mut acks: Vec<(Vec<u8>, Option<Vec<u8>>)> = vec![(b"__life2__".to_vec(), Some(b"x".to_vec()))];
+                    if let Some(k0) = keys.get(0) {
+                        acks.push((k0.clone(), Some(b"__l2".to_vec())));
+                    }
+                    if let Some(k1) = keys.get(1) {
+                        acks.push((k1.clone(), None));
+                    }
+                    let mut ok2 = true;
+                    for (k, v) in &acks {
+                        let r = std::panic::catch_unwind(std::panic::AssertUnwindSafe(|| match v {
+                            Some(v) => h.set(Bytes::from(k.clone()), Bytes::from(v.clone())).map(|_| ()),
+                            None => h.del(Bytes::from(k.clone())).map(|_| ()),
+                        }));
+                        if !matches!(r, Ok(Ok(()))) {
+                            ok2 = false;
+                        }
+                    }
+                    drop(h);
+                    drop(kv);
+                    life3 = if !ok2 {
+                        "life2-op-failed".to_string()
+                    } else {
+                        match std::panic::catch_unwind(|| make_config(&c, &dir).open()) {
+                            Ok(Ok(kv3)) => {
+                                let h3 = kv3.get_handle();
+                                let mut bad = Vec::new();
+                                for (k, v) in &acks {
+                                    let got = std::panic::catch_unwind(std::panic::AssertUnwindSafe(|| h3.get(Bytes::from(k.clone()))));
+                                    let want = v.clone();
+                                    match got {
+                                        Ok(Ok(g)) => {
+                                            if g.as_ref().map(|b| b.to_vec()) != want {
+                                                bad.push(format!("{}:{}", hex(k), g.map(|b| hex(&b)).unwrap_or_else(|| "none".into())));
+                                            }
+                                        }
+                                        _ => bad.push(format!("{}:error", hex(k))),
+                                    }
+                                }
+                                // the untouched keys read as in the second life
+                                for (i, k) in keys.iter().enumerate() {
+                                    if i < 2 {
+                                        continue;
+                                    }
+                                    let got = std::panic::catch_unwind(std::panic::AssertUnwindSafe(|| h3.get(Bytes::from(k.clone()))));
+                                    let r = match got {
+                                        Ok(Ok(Some(v))) => format!("some:{}", hex(&v)),
+                                        Ok(Ok(None)) => "none".to_string(),
+                                        _ => "error".to_string(),
+                                    };
+                                    if items.get(i).map(|s| s.as_str()) != Some(&format!("{}={}", hex(k), r)) {
+                                        bad.push(format!("{}:{}", hex(k), r));
+                                    }
+                                }
+                                if bad.is_empty() { "ok".to_string() } else { format!("lost:{}", bad.join(";")) }
+                            }
+                            Ok(Err(e)) => format!("open-err:{}", e).replace(' ', "_"),
+                            Err(_) => "open-panic".to_string(),
+                        }
+                    };
+                    return_line(&mut out, format!("open:ok {} write={} life3={}", items.join(","), w, life3));
+                    continue;
+                }
+                format!("open:ok {} write={} life3={}", items.join(","), w, life3)
             }
             Ok(Err(e)) => format!("open:err:{}", e).replace(' ', "_"),
             Err(_) => "open:panic".to_string(),
